@@ -394,7 +394,7 @@ func runC04(w *World, r *Report) {
 	}
 
 	// 3. signed-field coverage
-	r.rule("signed-field-coverage", "every stored/wire field of Vertex and Transaction contributes content to its signed digest or is a verification input", 18)
+	r.rule("signed-field-coverage", "every stored/wire field of Vertex and Transaction contributes content to its signed digest or is a verification input", 14)
 	type cov struct {
 		pkg, typ, digestFn string
 		inputs             map[string]bool
